@@ -194,7 +194,9 @@ fn cmd_proto(args: &[String]) {
     let scenario = read_ndjson(arg(args, "--scenario").expect("--scenario"));
     let mut it = Interner::new();
     let mut out = Vec::new();
-    proto_exec::run(&scenario, &mut it, &mut out);
+    let dbdir = format!("{}.db", arg(args, "--out").expect("--out"));
+    proto_exec::run(&scenario, &mut it, &mut out, &dbdir);
+    let _ = std::fs::remove_dir_all(&dbdir);
     write_ndjson(arg(args, "--out").expect("--out"), &out);
     write_json(arg(args, "--tab").expect("--tab"), &it.tables());
 }
